@@ -806,4 +806,21 @@ example : (fit (Converter.bundled Rat) ⟨.number (.regular 1500), some ['m','l'
     (fit (Converter.bundled Rat) ⟨.number (.regular (3/2)), some ['l']⟩).1 =
       ⟨.number (.regular (3/2)), some ['l']⟩ := by decide +kernel
 
+/-- `C09_best_unit_rule` for every converter the builder makes of units files with positive ratios (soundness and the
+    invariant of the best lists are theorems for built converters; positivity of the ratios is a premise on the files —
+    the builder does not check it) -/
+theorem C09_best_unit_rule_built {files : List (Bld.UnitsFile Rat)} {c : Converter Rat}
+    (hbuilt : Bld.BuiltAs files c) (hpos : c.PosRatios)
+    {u : Unit Rat} (hu : u ∈ c.allUnits) {to : ConvertTo Rat} {s : System} (hs : to.systemFor c u = some s)
+    {value v' : ConvertValue Rat} {b : Unit Rat} (h : c.convert value (.unit u) to = .ok (v', b)) :
+    ∃ base, ((c.best u.pq).conversions s).unitsOf.head? = some base ∧
+      b ∈ ((c.best u.pq).conversions s).unitsOf ∧ b.pq = u.pq ∧
+      (∀ x ∈ ((c.best u.pq).conversions s).unitsOf, base.ratio ≤ x.ratio) ∧
+      ((amount 1 b - 1 / 1000 * base.ratio ≤ amount (Rat.abs value.lead) u ∧
+          ∀ x ∈ ((c.best u.pq).conversions s).unitsOf, b.ratio < x.ratio →
+            amount (Rat.abs value.lead) u < amount 1 x - 1 / 1000 * base.ratio) ∨
+       (b = base ∧ ∀ x ∈ ((c.best u.pq).conversions s).unitsOf,
+            amount (Rat.abs value.lead) u < amount 1 x - 1 / 1000 * base.ratio)) :=
+  C09_best_unit_rule hbuilt.sound (bub_built_bestOK hbuilt) hpos hu hs h
+
 end Cook
